@@ -51,7 +51,7 @@ def run(chk):
                     frames.add(hash(ln))
     chk.cov["distinct_nontrivial"] = len(frames)
     if (outs.get("Typed", 0) < 500 or outs.get("Corrupt", 0) < 500) and not chk.violations:
-        raise ToolError("vacuity: outcomes %s" % outs)
+        chk.vacuity("vacuity: outcomes %s" % outs)
     return chk.finish("model_checking", RULE, extra={"outcomes": outs, "frame_sources": tags, "profiles": ["release", "relchk (overflow-checks)"]})
 
 
